@@ -75,6 +75,24 @@ class CallEqvMonitor(Monitor):
                 self.eq.after_step(sess, step, old, r)
             else:
                 ctx.stat("call_eqv.derived_rejected")
+            # the same pair of callees at the *other* call sites of the procedure, one after the
+            # other: whether a swap is allowed depends on what follows each site, not on the pair
+            for _ in range(3):
+                others = [(p, s) for p, s in irutil.all_stmts(sess.cur._loopir_proc) if isinstance(s, LoopIR.Call) and s.f is call.f]
+                if not others:
+                    break
+                p2, _s2 = rng.choice(others)
+                step2 = {"op": "call_eqv", "args": [D_node(p2), {"k": "proc", "name": "__eqv_derived"}], "kw": {}}
+                old2 = sess.cur
+                r2 = apply_step(sess, step2)
+                ctx.stat("call_eqv.derived_attempted")
+                if r2.status == "accepted":
+                    ctx.stat("call_eqv.derived_accepted")
+                    sess.calls_of.append(r2.calls) if hasattr(sess, "calls_of") else None
+                    self.eq.after_step(sess, step2, old2, r2)
+                else:
+                    ctx.stat("call_eqv.derived_rejected")
+                    break
         # (ii) other origin: must be rejected
         others = []
         try:
